@@ -1,15 +1,13 @@
 use ::unimock::MockFn as _;
-macro_rules! stamp { ($($item:tt)*) => { #[::entrait::entrait(pub T, mock_api = Mk, unimock, export, no_deps)] $($item)* } }
-stamp! {
-async fn f1((x1, y1): (i32, i32), r2: &str) -> String {
+macro_rules! stamp { ([$($params:tt)*] $body:block) => { #[::entrait::entrait(pub T, mock_api = Mk, unimock, export, no_deps)] async fn f1($($params)*) -> String $body } }
+stamp! { [(x1, y1): (i32, i32), r2: &str] {
     let __args: String = String::new() + &::vt::js(&format!("{:?}", x1)) + "," + &::vt::js(&format!("{:?}", y1)) + "," + &::vt::js(&r2.to_string());
     ::vt::emit("enter", &format!("\"f\":\"c000201::f1\",\"deps\":{},\"args\":[{}]", ::vt::js(&String::from("-")), __args));
     ::vt::yield_once().await;
     let __val = format!("c000201::f1({})", __args);
     ::vt::emit("exit", &format!("\"f\":\"c000201::f1\",\"val\":{}", ::vt::js(&__val)));
     __val
-}
-}
+} }
 
 pub fn run() {
     { ::vt::emit("scenario", "\"case\":\"c000201\",\"sc\":1");
